@@ -56,11 +56,26 @@ type abortSentinel struct{}
 
 func workerMain() {
 	// keep a runaway allocation of the code under test from taking the machine down
-	lim := syscall.Rlimit{Cur: 12 << 30, Max: 12 << 30}
+	lim := syscall.Rlimit{Cur: 3 << 30, Max: 3 << 30}
 	_ = syscall.Setrlimit(syscall.RLIMIT_AS, &lim)
 	in := bufio.NewReaderSize(os.Stdin, 1<<20)
 	out := bufio.NewWriter(os.Stdout)
 	var mu sync.Mutex
+	// A worker stuck inside the code under test never reads stdin again: leave when the parent is
+	// gone or when one open has been running far beyond the parent's deadline.
+	var busySince time.Time
+	parent := os.Getppid()
+	go func() {
+		for {
+			time.Sleep(500 * time.Millisecond)
+			mu.Lock()
+			b := busySince
+			mu.Unlock()
+			if os.Getppid() != parent || (!b.IsZero() && time.Since(b) > openDeadline+15*time.Second) {
+				os.Exit(4)
+			}
+		}
+	}()
 	var steps []stepEv
 	var abortAbove uint32
 	var aborted bool
@@ -90,6 +105,7 @@ func workerMain() {
 		}
 		mu.Lock()
 		steps, abortAbove, aborted = nil, req.AbortAbove, false
+		busySince = time.Now()
 		mu.Unlock()
 		var res openRes
 		start := time.Now()
@@ -112,6 +128,9 @@ func workerMain() {
 			}
 		}
 		res.Ms = float64(time.Since(start).Microseconds()) / 1000
+		mu.Lock()
+		busySince = time.Time{}
+		mu.Unlock()
 		b, _ := json.Marshal(res)
 		out.Write(b)
 		out.WriteByte('\n')
@@ -121,6 +140,7 @@ func workerMain() {
 
 // worker is the parent's handle on one child.
 type worker struct {
+	uses   int
 	cmd    *exec.Cmd
 	in     io.WriteCloser
 	lines  chan []byte
@@ -197,8 +217,9 @@ func (w *worker) kill() {
 
 // pool hands out workers; a worker that hung or died is replaced.
 type pool struct {
-	mu   sync.Mutex
-	free []*worker
+	mu     sync.Mutex
+	free   []*worker
+	flukes []string // children that died once but not on the immediate retry (harness trouble, recorded)
 }
 
 func (p *pool) get() *worker {
@@ -212,7 +233,16 @@ func (p *pool) get() *worker {
 	return startWorker()
 }
 
+// A worker is retired after a number of opens: stores that failed to open leave goroutines and
+// memory behind, and the child runs under an address-space limit.
+const workerMaxUses = 1000
+
 func (p *pool) put(w *worker) {
+	w.uses++
+	if w.uses >= workerMaxUses {
+		w.kill()
+		return
+	}
 	p.mu.Lock()
 	p.free = append(p.free, w)
 	p.mu.Unlock()
@@ -227,8 +257,22 @@ func (p *pool) close() {
 	p.mu.Unlock()
 }
 
-// open runs one open in a child with the deadline of the property's no-hang clause.
+// open runs one open in a child with the deadline of the property's no-hang clause. A child that
+// dies is an observation only if a fresh child dies on the same input again (R5).
 func (p *pool) open(req openReq) openRes {
+	res := p.open1(req)
+	if res.Crash != "" {
+		first := res.Crash
+		if res = p.open1(req); res.Crash == "" {
+			p.mu.Lock()
+			p.flukes = append(p.flukes, crashTail(first))
+			p.mu.Unlock()
+		}
+	}
+	return res
+}
+
+func (p *pool) open1(req openReq) openRes {
 	w := p.get()
 	b, _ := json.Marshal(req)
 	core.Beat("real:Store.Open")
